@@ -672,7 +672,7 @@ def _r7(ctx):
         q = cls + ".write"
         variants = {"xyz": [dict(cell=False, time=False)], "mdcrd": [dict(cell=True, time=False), dict(cell=False, time=False)],
                     "lammpstrj": [dict(cell=True, time=False), dict(cell=True, ortho=True, time=False), dict(cell=True, ortho="mixed", time=False)],
-                    "gro": [dict(cell=True, time=True), dict(cell=False, time=False), dict(cell=True, time=False)]}[key]
+                    "gro": [dict(cell=True, time=True), dict(cell=False, time=False), dict(cell=True, time=False), dict(cell="triangular", time=True)]}[key]
         for var in variants:
             vdesc = ", ".join("%s=%s" % kv for kv in sorted(var.items()))
             for n, part in splits:
